@@ -148,6 +148,9 @@ def check(run):
     _inputs_kept(run, mi)
     from ..cachekey import check_caches
     check_caches(run, [mi], 'C20-K', prog=prog)
+    run.include('C11', {'cherab/tools/inversions/nnls.py', 'cherab/tools/inversions/lstsq.py'},
+                'the operator is handed to the regularised solvers as their Tikhonov matrix and reused between calls: they must not change it')
+    run.include('C13', {'cherab/core/math/samplers.pyx'}, 'the flux map at the voxel centres is produced by sample2d_points: values in the order of the points')
 
 
 def _stencils(run, prog, mi):
